@@ -18,7 +18,9 @@ import (
 // Replica-side operations of Faults.tla: a replica applies one streamed transaction file
 // (replica_apply) or is given a snapshot (replica_snapshot) while one call it makes through the OS
 // interface fails. The failed attempt ends the stream; the replica reconnects and is served again.
-// Monitor groups: replica-image (it reaches the primary's position with the primary's image),
+// Monitor groups: replica-mount (what an application on the replica reads through the kernel's page cache is
+// what the replica's file holds: C01's "as an application reads it through the replica's mount"),
+// replica-image (it reaches the primary's position with the primary's image),
 // replica-checksum (the checksum it reports is that of its pages), replica-chain (its log is one chain
 // to its position), replica-restart (if it stopped itself, a restart on the directory as it was at that
 // moment opens with a consistent database).
@@ -221,7 +223,7 @@ func sweepCluster(rep *core.Report, sel Select, c Case, l sim.Layout) {
 	if ok && c.Kind == "error" {
 		rep.Eval(1)
 		if stale := ref.r.StalePages(dbName, l.PageSize, l.LockPgno()); len(stale) > 0 {
-			violate(rep, sel, "replica-image", "replica-reads-stale-pages-through-the-mount", "replica-reads-stale-pages-through-the-mount/"+c.Op+"/"+c.Target,
+			violate(rep, sel, "replica-mount", "replica-reads-stale-pages-through-the-mount", "replica-reads-stale-pages-through-the-mount/"+c.Op+"/"+c.Target,
 				map[string]any{"stale_pages": stale, "what": "after the replica applied what the primary sent (no fault), an application on the replica that had the database in its page cache reads pages through the mount that differ from the replica's database file"}, c, l, "", -1, "")
 		}
 	}
@@ -392,7 +394,7 @@ func (w *cworld) replicaHistories(rep *core.Report, sel Select) {
 		}
 		rep.Eval(1)
 		if stale := w.r.StalePages(dbName, l.PageSize, l.LockPgno()); len(stale) > 0 {
-			violate(rep, sel, "replica-image", "replica-reads-stale-pages-through-the-mount", "replica-reads-stale-pages-through-the-mount/"+step+"/"+c.Target,
+			violate(rep, sel, "replica-mount", "replica-reads-stale-pages-through-the-mount", "replica-reads-stale-pages-through-the-mount/"+step+"/"+c.Target,
 				map[string]any{"stale_pages": stale, "history": step, "what": "an application on the replica that keeps the database open reads pages through the mount that differ from the replica's database file"}, c, l, step, -1, "")
 			return false
 		}
